@@ -32,6 +32,9 @@ VERIF_ROOT = os.environ.get("VERIF_ROOT", "/verif")
 REPO = os.environ.get("VERIF_REPO", "/repo")
 SRC = os.path.join(REPO, "src")
 NPROC = int(os.environ.get("VERIF_NPROC", str(min(16, os.cpu_count() or 1))))
+# every scratch file of a run lives under one directory that the ./check launcher creates and removes (forked workers leave via os._exit, so
+# per-process clean-up handlers never run); without the launcher: tmpfs if there is one
+TMP = os.environ.get("VERIF_TMP") or ("/dev/shm" if os.path.isdir("/dev/shm") and os.access("/dev/shm", os.W_OK) else None)
 FIXED_TODAY = (2025, 6, 15)
 
 
